@@ -947,7 +947,8 @@ func checkC15(r *mon.Run) {
 		}()
 	}
 	wg.Wait()
-	r.Require(int64(nWorlds*cycles*perPhase), 20, "world_all_sessions_up", "phase_cut_links_down", "phase_restored_links_up", "burst_towards_down_link", "burst_with_unanswered_probes",
+	c15ParamPhase(r)
+	r.Require(int64(nWorlds*cycles*perPhase), 20, "world_all_sessions_up", "phase_cut_links_down", "phase_restored_links_up", "burst_towards_down_link", "burst_with_unanswered_probes", "bfd_params_round",
 		"probe_forwarded_up", "probe_forwarded_nobfd", "probe_scmp5_down", "probe_scmp6_down", "forwarded_after_restore",
 		"bfd_onehop_packets_accepted_by_peer_session", "bfd_intra_as_packets_accepted_by_peer_session")
 }
